@@ -84,6 +84,10 @@ CLAIMED = {
             'exploration: held on ~2.7x10^4 queries per quick run (~2.3x10^4 on a degenerate locus: vertices, edges, depth bounds and their floating point neighbours, trench line, slab tip, poles, date line with both zero signs, planet centre, surface at/below min depth); thorough adds magnitudes up to 1e12',
             'a finite sample of a continuum targeted at the loci the code special-cases; a reproducible watchdog firing is the only notion of non-termination',
             'DESIGN.md section 4, C13'),
+    'C12': ('runtime monitoring with sanitizers: World construction (plus a fixed battery of queries) on the ASan+UBSan build for documents generated from the JSON schema the built library itself emits (adversarial list lengths and numbers), single-fault schema violations of valid files (cross-checked with python jsonschema), and formatting variants (bit-identical answers); thorough adds libFuzzer on raw bytes and a valgrind memcheck replay',
+            'exploration: held on ~1.5x10^3 schema-derived documents, ~600 mutated files and 100 formatting variants per quick run; every outcome is either "constructed" or std::exception with a message; crashes, sanitizer reports and hangs are routed through the crash matcher',
+            '"all byte strings" is sampled; "never hangs" is a 30 s progress watchdog confirmed in isolation; sibling-list length checks are only demanded of models that are certainly instantiated',
+            'DESIGN.md section 4, C12'),
 }
 
 PENDING_REASON = 'check not built yet (work in progress; see DESIGN.md section 9)'
